@@ -2784,7 +2784,7 @@ class SQLNode(ViewRepresentation):
         # copy self
         r = SQLNode(
             sql=self.sql.copy(),
-            column_names=self.column_names.copy(),
+            column_names=self.column_names,
             view_name=self.view_name,
         )
         return r
